@@ -69,8 +69,12 @@ def body(case, rec, H=None):
     from synkit.CRN.Hypergraph.conversion import hypergraph_to_bipartite
 
     Gb = hypergraph_to_bipartite(H)
+    # roles carry the meaning of an arc (as build_S documents): the same graph with every arc reversed is the same network
+    spr, _, Sr = stoich.build_S(Gb.reverse(copy=True))
     spb, rxb, Sb = stoich.build_S(Gb)
     Sb = np.asarray(Sb)
+    if list(spr) != list(spb) or not np.array_equal(np.asarray(Sr), Sb):
+        raise Violation("S-bipartite-input", f"{crn_gen.rx_str(case)}: build_S differs between the exported bipartite graph and the same graph with arcs reversed")
     if list(spb) != species or Sb.shape != (n, m) or Counter(tuple(int(round(x)) for x in Sb[:, j]) for j in range(m)) != Counter(
         tuple(S[i][j] for i in range(n)) for j in range(m)
     ):
